@@ -3,6 +3,7 @@ package actionlint
 import (
 	"encoding/json"
 	"fmt"
+	"sort"
 	"strconv"
 	"strings"
 )
@@ -821,7 +822,12 @@ func (sema *ExprSemanticsChecker) checkBuiltinFuncCall(n *FuncCallNode, sig *Fun
 			delete(holders, i) // forget it to check unused placeholders
 		}
 
+		unused := make([]int, 0, len(holders))
 		for i := range holders {
+			unused = append(unused, i)
+		}
+		sort.Ints(unused) // Report in a deterministic order. All errors are at the same position
+		for _, i := range unused {
 			sema.errorf(n, "format string %q contains placeholder {%d} but only %d arguments are given to format", lit.Value, i, l)
 		}
 	case "fromjson":
